@@ -1,9 +1,89 @@
 HOOK_COMMITS = ["9fed477"]
 NOT_APPLICABLE = {}
+
+TECH = "Lean 4 theorems over an executable model + differential correspondence (Rust harness vs native Lean driver) + constant/ordering translator"
+BASE_NOTE = ("Trusted: Lean kernel + Mathlib; tools/extract.py; the correspondence is differential testing over generated cases "
+             "(distribution printed in the evidence). ")
+
 CLAIMS = {
+ "C01": {
+  "text": "The Lean specification prover (Model/Prover.lean, rounds 1-5 as in prove_inner) and model verifier are executed next to the real code: for every constraint count around every power of two, SRS capacities exactly sufficient / one too small, all public-input placements and labels, the real proof must equal the model's proof byte for byte, both verifiers must accept, and the compressed and serialized key routes must give identical keys and proofs. Theorems: transcript order prover/verifier agreement, capacity arithmetic (C20 trim_enough), verifier algebra (C03).",
+  "note": BASE_NOTE + "Partial: pairing in the trapdoor view; the end-to-end theorem 'model prover output is accepted by the model verifier' is checked executably on every case (spec=ok) and proved only in its algebraic parts; degenerate blinders excluded as the property allows.",
+  "technique": TECH},
+ "C02": {
+  "text": "Deterministic core of soundness: the verifier model (transcript from bytes, regrouped MSM == textbook equation, trapdoor pairing) decides every adversarial proof exactly as the real verifier does: forced proofs of violating instances (hook), forged commitments/evaluations, splices, degenerate proofs are all rejected. Theorems: verifier algebra (C03), KZG opening exactness (C20), row semantics (C05/C08-C14).",
+  "note": BASE_NOTE + "Partial by nature: soundness is computational (KZG knowledge soundness, AGM, Fiat-Shamir are assumptions); what is proved is the algebraic core with explicit bad-challenge sets.",
+  "technique": TECH},
+ "C03": {
+  "text": "Theorems about the model verifier: grouped MSM of Proof::verify / verify_legacy equals the textbook equation as a formal linear combination over any module; every linearisation scalar equals the widget identity; transcript operation list is injective in label, sizes, bound commitments, public inputs and proof elements; acceptance depends on nothing else. The model verifier recomputes Merlin/STROBE/Keccak challenges from bytes and must agree with the real verifier on every mutated proof (bit flips, field replacement, cross-circuit, splices).",
+  "note": BASE_NOTE + "Pairing decided in the trapdoor view (bilinearity assumed); sponge treated as random oracle; G1/G2 arithmetic of dusk-bls12_381 re-implemented and compared, not proved.",
+  "technique": TECH},
+ "C04": {
+  "text": "Theorems: public-input length mismatch is rejected before anything else; changing any public input, label byte/length, bound key commitment, size or version flag changes the transcript operation list; version matrix of transcript/equation flags. Correspondence: every public-input mutation, near-miss circuit, label variant and version pair must be rejected by the real verifier exactly as by the model verifier, never accepted, never a panic.",
+  "note": BASE_NOTE + "Different operation lists give unrelated challenges only under the random-oracle assumption; pairing in the trapdoor view.",
+  "technique": TECH},
+ "C05": {
+  "text": "The model's proveOutcome (every row identity on the padded domain with cyclic next-row wires, copy classes of the compiled layout, size check) is compared with the real Prover::prove + verify on raw rows of every widget family (satisfying / violating exactly one component), mixed selectors, a selected last row of a full domain, re-wired instances (copy constraints), and the specification prover reproduces the real quotient computation (len > 7n rule) byte for byte (C01/C06). Theorems: row semantics bridge (RowBridge), per-widget component characterisations (C08-C14 files).",
+  "note": BASE_NOTE + "Prover success == all identities hold is exact outside explicit bad-challenge sets (random-oracle assumption). The divisibility <-> vanishing theorem over the model's quotient routine is exercised executably, its general proof is pending (see DESIGN status).",
+  "technique": TECH},
+ "C06": {
+  "text": "The specification prover draws exactly 14 scalars in the order a1 a2 b1 b2 c1 c2 d1 d2 z1 z2 z3 t1 t2 t3 and builds every opened polynomial as unmasked + blinder*(X^n-1) (blindPoly) / quotient shares re-randomised; the real prover's 1008 bytes must equal the model's for scripted RNG streams with single draws forced to 0, 1, r-1; fill_bytes call count 14; two independently randomised proofs share no commitment and no wire/permutation evaluation.",
+  "note": BASE_NOTE + "Statistical zero-knowledge itself (simulator) is not proved; the property as worded (mask shape, draw discipline) is decided by byte equality with the model whose structure is the mask form.",
+  "technique": TECH},
+ "C07": {
+  "text": "37 theorems: every composer component of the model is shape-stable (gates, public-input rows, witness count and returned indices are functions of the call sequence and constants, for arbitrary witness values), exact error conditions of every fallible entry point with the state unchanged on error, totality by construction, whole-program theorem. Correspondence: every public component and every const-generic width (exhaustive) on boundary values and malformed points in a debug-assertions build: no panic, equal shape across value vectors, impl shape == model shape.",
+  "note": BASE_NOTE + "Layout correspondence is exhaustive in the const-generic width; values are sampled.",
+  "technique": TECH},
  "C08": {
-  "text": "Theorems (Plonk/Props/C08.lean) about the executable Lean model of the arithmetic/equality/boolean/selection components: each row identity is equivalent to the documented relation over F_r, returned witnesses are unique; the model is tied to the code on every run by layout/witness-table equality on generated programs and by prove/verify outcomes vs. the model's sysSat.",
-  "note": "Trusted: Lean kernel + Mathlib; dusk-bls12_381 field arithmetic (modelled as Nat mod r, exercised differentially); extract.py; correspondence is differential testing over generated programs (distribution printed in the evidence). Prover success = all row identities hold is taken outside the explicit bad-challenge sets (RO assumption).",
-  "technique": "Lean 4 theorems over an executable model + differential correspondence (Rust harness vs native Lean driver) + constant translator",
- },
+  "text": "52 theorems about the executable model of the arithmetic/equality/boolean/selection components: appended rows hold under an arbitrary assignment iff the documented relation holds over F_r, returned witnesses unique, honest table satisfies; tied to the code by layout/witness-table equality and prove/verify outcomes on generated programs.",
+  "note": BASE_NOTE + "dusk-bls12_381 field arithmetic modelled as Nat mod r (r proved prime by a Pratt certificate). Prover success = all row identities hold outside explicit bad-challenge sets (RO assumption).",
+  "technique": TECH},
+ "C09": {
+  "text": "Theorems: rangeCheck sound for every width <= 254 under every accumulator assignment, complete for every width, exact characterisation, 255/256 constrain nothing, both entry points are the same state transformer. Correspondence exhaustive over widths 0..=256 and pair counts, boundary values, forged accumulators.",
+  "note": BASE_NOTE + "Prover success = all row identities hold outside explicit bad-challenge sets (RO assumption).",
+  "technique": TECH},
+ "C10": {
+  "text": "Theorems: for every pair count <= 127 the logic component's rows under an arbitrary assignment force the output to be AND/XOR of the canonical values mod 4^pairs; always satisfiable; exact characterisation; zero pairs. Correspondence exhaustive over both operations and all pair counts, forged outputs/product wires.",
+  "note": BASE_NOTE + "RO assumption for prover success = identities.",
+  "technique": TECH},
+ "C11": {
+  "text": "Theorems: component_truncate sound (N <= 254, all internal wires prover-chosen), always satisfiable, exact; component_decomposition sound/unique for N <= 254, complete for all N; decomposition_alias_255_256 proves the NEGATION of uniqueness for N in {255,256} (known finding, replayed end-to-end on the implementation). Correspondence exhaustive over N.",
+  "note": BASE_NOTE + "Known finding recorded in known-findings.txt (decomposition alias for N >= 255).",
+  "technique": TECH},
+ "C12": {
+  "text": "Theorems: d non-residue / -1 residue (kernel-evaluated Euler criterion), completeness and closure of the twisted Edwards law, ASSOCIATIVITY (proved: real AddCommGroup on curve points), variable-base rows <-> unique sum and helper wire, ladder = scalar multiple; gadget-level glue (addPointGates, neg/sub/select/mul_point) being delivered. Correspondence: returned coordinates vs an independent Python group-law oracle, forged helper wires, scalars up to 2^252.",
+  "note": BASE_NOTE + "Only the group ORDER 8*r_J is a hypothesis (JubjubGroupFacts.order), needed nowhere in C12. dusk-jubjub host arithmetic modelled and compared.",
+  "technique": TECH},
+ "C13": {
+  "text": "Correspondence on all 8 torsion cosets, off-curve points, prover-chosen auxiliary points (honest, torsion translates, off-curve), host-side validation and zero-Z handling in a debug-assertions build; theorems: doubling rows force 2Q on the curve, [8][8^-1]P = P for [r_J]P = O, membership in 8E <-> on curve and [r_J]P = O (-> direction under the group-order hypothesis); gadget glue and decision-logic theorems being delivered.",
+  "note": BASE_NOTE + "Group order 8*r_J of JubJub is an explicit hypothesis structure, not an axiom.",
+  "technique": TECH},
+ "C14": {
+  "text": "Theorems (math level): canonical-scalar double range check <-> s < r_J, signed-digit accumulation without modular wrap (breaks if the leading-zero block drops below 2), NAF bounds, fixed-base row <-> digit in {-1,0,1} and point accumulation; gadget glue being delivered. Correspondence: honest NAF, binary digits, digits of s+r, s-r, s+r_J, digit 2, non-zero leading digits vs model and vs an independent Python oracle.",
+  "note": BASE_NOTE + "Group order hypothesis not needed (associativity proved).",
+  "technique": TECH},
+ "C15": {
+  "text": "Model of decompress(compress(c)) (first-use witness relabelling, zero values, positional public inputs) equals the implementation's snapshot; both compilation routes give byte-identical prover and verifier or fail together for SRS degrees from too small to ample; max_constraints equals the model for every degree; malformed/oversized payloads (re-packed MessagePack/deflate, zip bombs) give an error with bounded peak allocation and no panic.",
+  "note": BASE_NOTE + "Partial: MessagePack/deflate are external and not modelled; relabelling-invariance of sigma is checked executably through byte-identical keys, its general theorem is pending.",
+  "technique": TECH},
+ "C16": {
+  "text": "Round trips: prover/verifier bytes -> decode -> identical bytes, identical proofs from the same RNG stream, identical verifier decisions (route flag on every C01 case incl. a circuit whose q_m interpolant loses its top coefficient: defect found and fixed); proof decoder canonical (accepted bytes re-encode to themselves; checked on every mutated proof); model codecs for proof / verifier key / opening key / verifier framing compared byte for byte.",
+  "note": BASE_NOTE + "fix: 9388e48 (ProverKey buffer sizing). Codec theorems for the model decoders are pending.",
+  "technique": TECH},
+ "C17": {
+  "text": "Structure-aware mutation of valid encodings of provers, verifiers, proofs, public parameters, commit keys and compressed circuits in a debug-assertions + overflow-checks build: every case returns a value or an error (no panic), allocation bounded, accepted values usable; verifier/proof decoders additionally compared with the model decoders.",
+  "note": BASE_NOTE + "Partial: hangs and real peak memory are observed, not proved.",
+  "technique": TECH},
+ "C18": {
+  "text": "Theorems: the parallel butterfly equals the serial one for every thread count (all three arms of the FFT switch), quotient/permutation loops are index-wise maps; correspondence: the real prover under rayon pools of different sizes, repeated runs and fresh processes produces the bytes of the (sequential, deterministic) Lean specification prover.",
+  "note": BASE_NOTE + "Partial: real interleavings, the label-cache mutex and memory-model effects are outside any executable model; Rust's data-race freedom for safe code is trusted.",
+  "technique": TECH},
+ "C19": {
+  "text": "33 theorems: iterative in-place FFT = radix-2 recursion = O(n^2) DFT = polynomial evaluation on the subgroup/coset, inverse transforms interpolate, mutual inverses, thread-count independence, long inputs reduce modulo X^n-1 (defect found and fixed); polynomial add/sub/scale/mul/evaluate/ruffini refine Mathlib polynomials; batch inversion; closed forms. Correspondence on all domain sizes up to 2^12 (2^14 thorough), pools 1..17.",
+  "note": BASE_NOTE + "fix: eed3c07 (fft of a vector longer than the domain).",
+  "technique": TECH},
+ "C20": {
+  "text": "33 theorems: commitment = p(x)*g (additive, zero, injective), single / aggregated / batched openings pass iff the claimed evaluations are true (explicit bad-challenge sets), pairing check <-> trapdoor equation for an abstract bilinear pairing; on the executable code: setup is a consistent sequence of powers of one secret with matching G2 element, trim keeps a sufficient prefix, degree guard, empty/mismatched batches rejected. Correspondence: setup bytes, commitments byte for byte, batch decisions via the trapdoor.",
+  "note": BASE_NOTE + "Group law of the executable G1 model is not proved (abstract module level; tied differentially). Binding against adversarial witnesses is computational, not claimed.",
+  "technique": TECH},
 }
